@@ -908,5 +908,125 @@ func c15(c *core.Check) {
 	c.Floor("C15-R4", 2)
 }
 
+func init() { register("C15", c15OffsetDiscipline) }
+
+// c15OffsetDiscipline: the offset marks how much of the buffer is consumed.
+// Outside send (decided by R2) it may only be moved to the end of the buffer
+// (everything consumed) or back to 0 together with a buffer that no longer
+// holds the consumed bytes.  Setting it back to 0 over an unchanged buffer
+// delivers bytes a second time — e.g. the tail of a finished connection in
+// front of the next connection's first line when a reader is reused.
+func c15OffsetDiscipline(c *core.Check) {
+	c.Rule("C15-R5", "OFFSET-DISCIPLINE: every assignment to the reader's offset outside send is `off = len(buf)`, or `off = 0` in a function that on every path to it also gives buf a value without the consumed prefix (`buf[off:…]`, `buf[:0]`, a new slice): an offset reset over the old contents re-delivers consumed bytes")
+	pkg := c.Prog.Pkgs["internal/tailer/logstream"]
+	sendF := c.Prog.Fn("internal/tailer/logstream.(*LineReader).send")
+	if pkg == nil || sendF == nil {
+		c.Undecided("C15-R5", "anchors", "-", "package logstream or LineReader.send not found")
+		return
+	}
+	lrObj := pkg.Types.Scope().Lookup("LineReader")
+	stt, _ := lrObj.Type().Underlying().(*types.Struct)
+	var bufFld, offFld *types.Var
+	for i := 0; stt != nil && i < stt.NumFields(); i++ {
+		if sl, ok := stt.Field(i).Type().Underlying().(*types.Slice); ok {
+			if b, ok := sl.Elem().Underlying().(*types.Basic); ok && (b.Kind() == types.Byte || b.Kind() == types.Uint8) {
+				bufFld = stt.Field(i)
+			}
+		}
+	}
+	ast.Inspect(sendF.Body, func(n ast.Node) bool {
+		if as, ok := n.(*ast.AssignStmt); ok && len(as.Lhs) == 1 {
+			if sel, ok := as.Lhs[0].(*ast.SelectorExpr); ok {
+				if s := sendF.Info().Selections[sel]; s != nil && s.Kind() == types.FieldVal {
+					if b, ok := s.Obj().Type().Underlying().(*types.Basic); ok && b.Info()&types.IsInteger != 0 {
+						offFld = s.Obj().(*types.Var)
+					}
+				}
+			}
+		}
+		return true
+	})
+	if bufFld == nil || offFld == nil {
+		c.Undecided("C15-R5", "fields", "-", "buffer/offset fields not recognised")
+		return
+	}
+	n := 0
+	for _, f := range shipped(c) {
+		if f.Pkg != pkg || f == sendF {
+			continue
+		}
+		info := f.Info()
+		isFld := func(e ast.Expr, fv *types.Var) bool {
+			sel, ok := core.Unparen(e).(*ast.SelectorExpr)
+			if !ok {
+				return false
+			}
+			s := info.Selections[sel]
+			return s != nil && s.Obj() == fv
+		}
+		var bufAssigns []*ast.AssignStmt
+		core.InspectNoLit(f.Body, func(nd ast.Node) bool {
+			if as, ok := nd.(*ast.AssignStmt); ok && len(as.Lhs) == 1 && isFld(as.Lhs[0], bufFld) {
+				bufAssigns = append(bufAssigns, as)
+			}
+			return true
+		})
+		core.InspectNoLit(f.Body, func(nd ast.Node) bool {
+			as, ok := nd.(*ast.AssignStmt)
+			if !ok || len(as.Lhs) != 1 || !isFld(as.Lhs[0], offFld) {
+				return true
+			}
+			n++
+			key := fmt.Sprintf("%s|offset assignment#%d", f.Key, n)
+			c.Analysed(f)
+			rhs := core.Unparen(as.Rhs[0])
+			// off = len(buf)
+			if call, ok := rhs.(*ast.CallExpr); ok && f.CalleeID(call) == "builtin.len" && len(call.Args) == 1 && isFld(call.Args[0], bufFld) {
+				c.Ok("C15-R5", key, pos(c, as), "off = len(buf): everything consumed")
+				return true
+			}
+			if v, isC := constInt(info, rhs); isC && v == 0 {
+				// some assignment to buf in this function drops the consumed prefix and precedes this statement on every path
+				g := f.Graph()
+				p, okP := g.PointOf(as)
+				var drops []core.Point
+				for _, ba := range bufAssigns {
+					r := core.Unparen(ba.Rhs[0])
+					okDrop := false
+					if se, ok := r.(*ast.SliceExpr); ok && isFld(se.X, bufFld) {
+						if se.Low != nil && isFld(se.Low, offFld) {
+							okDrop = true // buf[off:…]
+						}
+						if se.Low == nil && se.High != nil {
+							if hv, isC := constInt(info, se.High); isC && hv == 0 {
+								okDrop = true // buf[:0]
+							}
+						}
+					}
+					if cl, ok := r.(*ast.CallExpr); ok && f.CalleeID(cl) == "builtin.make" {
+						okDrop = true
+					}
+					if okDrop {
+						if bp, ok := g.PointOf(ba); ok {
+							drops = append(drops, bp)
+						}
+					}
+				}
+				okAll := okP && len(drops) > 0
+				if okAll {
+					if _, skip := pathAvoiding(g, nil, []core.Point{p}, drops); skip {
+						okAll = false
+					}
+				}
+				c.Verdict(okAll, "C15-R5", key, pos(c, as), "offset reset together with a buffer that dropped the consumed bytes", "the reader's offset is set back to 0 while the buffer keeps its old contents: bytes that were already delivered (a fragment flushed by Finish, the tail of a finished connection) are scanned again and come out glued in front of the next data")
+				return true
+			}
+			c.Undecided("C15-R5", key, pos(c, as), "the offset is assigned a value that is neither len(buf) nor 0")
+			return true
+		})
+	}
+	c.Floor("C15-R5", 2)
+}
+
 // bcapAtRead returns the capacity after the grow statement as recorded.
 func (s *c15State) bcapAtRead(len0, size aff) aff { return s.bcap }
